@@ -277,6 +277,10 @@ func (m *Machine) snapWalk(v Value, sb *strings.Builder, sn *SnapVal, seen map[*
 		sb.WriteString("opaque:" + x.tag)
 	case FloatVal:
 		sb.WriteString("float64:")
+		if x.conc {
+			fmt.Fprintf(sb, "%v", x.f)
+			break
+		}
 		m.snapWalk(x.t, sb, sn, seen, depth+1)
 	case *kvDB:
 		x.snap(m, sb, sn, seen, depth)
